@@ -51,6 +51,35 @@ theorem arangeBlocks_lens (start step : Int) (hs : step ≠ 0) : ∀ (cs : List 
     rw [this, chunkArange_exact _ _ _ hs]; simp
 
 
+/-- blocks that compute every element from its *global* index concatenate to the whole, for every chunking
+    (the shape of `arange_block`, `linspace_block`, and of the index grids behind `indices`/`fromfunction`) -/
+theorem blocks_by_index {α} (f : Nat → α) : ∀ (cs : List Nat) (off : Nat),
+    ((blockOffsets off cs).map (fun p => (List.range p.2).map (fun (j : Nat) => f (p.1 + j)))).flatten
+      = (List.range (sum cs)).map (fun (j : Nat) => f (off + j))
+  | [], _ => by simp [blockOffsets, sum]
+  | bs :: rest, off => by
+    simp only [blockOffsets, List.map_cons, List.flatten_cons, sum_cons]
+    rw [blocks_by_index f rest (off + bs), List.range_add, List.map_append, List.map_map]
+    congr 1
+    apply List.map_congr_left
+    intro j _
+    simp only [Function.comp, Nat.add_assoc]
+
+theorem blocks_by_index_lens {α} (f : Nat → Nat → List α) (hf : ∀ o n, (f o n).length = n) : ∀ (cs : List Nat) (off : Nat),
+    ((blockOffsets off cs).map (fun p => f p.1 p.2)).map List.length = cs
+  | [], _ => rfl
+  | bs :: rest, off => by
+    simp only [blockOffsets, List.map_cons, blocks_by_index_lens f hf rest (off + bs), hf]
+
+theorem arangeElem_int (start step : Int) (i : Nat) :
+    arangeElem intArith start (start + step) i = start + (i : Int) * step := by
+  unfold arangeElem intArith
+  by_cases h : i = 1
+  · subst h; simp
+  · simp only [h, if_false]
+    have : start + step - start = step := by omega
+    rw [this]
+
 theorem ceilDivInt_lt_iff_pos (d s : Int) (hs : 0 < s) (i : Int) : i < ceilDivInt d s ↔ i * s < d := by
   unfold ceilDivInt
   rw [Int.fdiv_eq_ediv_of_nonneg _ (Int.le_of_lt hs)]
